@@ -177,7 +177,7 @@ class SocketUxdNb(object):
             console.profuse(cmsg)
 
         if self.wlog:
-            self.wlog.writeTx(da, data)
+            self.wlog.writeTx(da, data[:result])
 
         return result
 
